@@ -511,6 +511,9 @@ func runC08(c *eng.Ctx) {
 	// a consumed-but-unacknowledged position must stay readable so that a rewind after a fault can re-send it
 	c.Rule("PROV", "pkg/queue.fanOutQueue.Sync{min-over-all-groups}", func() { syncRule(c) })
 
+	c.Rule("GUARD", "pkg/queue.queue.persistMetaOfMessage{cached index page = page of the sequence}", func() { cachedIndexPageRule(c) })
+	c.Rule("OWNER", "replica{SetAckIndex}", func() { setAckIndexOwner(c) })
+
 	// ---- the leader's log of a family is dropped only when EVERY follower's group is drained --------------------------------------
 	c.Rule("GUARD", "replica.partition.IsExpire{every group drained}", func() { expiryNeedsEveryGroupDrained(c) })
 
